@@ -49,10 +49,17 @@ def run_history(tc, w, frames, thr=0.5):
     """frames: list of lists of dict(a=animal id, hi=bool, pts=(n,2) array).  Returns the trace frames."""
     from harness.shim import predicted_instance
 
+    # score / threshold values (a function of the history, so that replays agree): the usual 0.9 / 0.3 against 0.5; a low score
+    # EQUAL to the threshold ("exceeds" is strict); the constructors' default threshold 0.0 with low scores of exactly 0.0.
+    # Frame numbers start at 0 or at 17 (a clip cut out of a longer video).
+    nd = len(frames) + sum(len(d) for d in frames)
+    hi_s, lo_s, thr = ((0.9, 0.3, thr), (0.9, thr, thr), (0.7, 0.0, 0.0))[nd % 3]
+    fi0 = 17 if (nd // 3) % 2 else 0
     tr = make_tracker(tc, w, thr)
     out = []
     for fi, dets in enumerate(frames):
-        insts = [predicted_instance(d["pts"], score=(0.9 if d["hi"] else 0.3)) for d in dets]
+        fi = fi + fi0
+        insts = [predicted_instance(d["pts"], score=(hi_s if d["hi"] else lo_s)) for d in dets]
         rec = dict(dets=[dict(a=int(d["a"]), hi=bool(d["hi"])) for d in dets], ret=[], raised=False, err="")
         try:
             res = tr.track(insts, fi, image=texture(1 if len(frames) % 2 else 3)) if tc.get("flow") else tr.track(insts, fi)
